@@ -5,6 +5,7 @@ import (
 	"flag"
 	"fmt"
 	"os"
+	"runtime"
 	"runtime/debug"
 	"sort"
 	"strconv"
@@ -28,6 +29,7 @@ func main() {
 	for _, kv := range [][2]string{{"GOWORK", "off"}, {"GOFLAGS", "-mod=mod"}, {"GOPROXY", "off"}, {"GOSUMDB", "off"}, {"GOTOOLCHAIN", "local"}} {
 		os.Setenv(kv[0], kv[1])
 	}
+	startWatchdog()
 	prop := flag.String("prop", "", "property id (C01..C20)")
 	tier := flag.String("tier", "quick", "quick|thorough")
 	repo := flag.String("repo", "/repo", "repository under analysis")
@@ -178,4 +180,39 @@ func debugDump(repo, fn string, args []string) {
 	for _, n := range g.Unbound {
 		fmt.Println("unbound:", g.Describe(n))
 	}
+}
+
+// startWatchdog keeps a run-away analysis from taking the machine down: when the heap passes the
+// budget (VERIF_MEM_GB, default 24) or the run passes the time budget (VERIF_MAX_SECONDS, default
+// 3600) the check stops as broken, with the stacks of all goroutines on stderr — a broken check
+// is reported as such, never as a verdict.
+func startWatchdog() {
+	memGB, maxSec := 24.0, 3600.0
+	if v := os.Getenv("VERIF_MEM_GB"); v != "" {
+		fmt.Sscan(v, &memGB)
+	}
+	if v := os.Getenv("VERIF_MAX_SECONDS"); v != "" {
+		fmt.Sscan(v, &maxSec)
+	}
+	start := time.Now()
+	go func() {
+		var ms runtime.MemStats
+		for {
+			time.Sleep(500 * time.Millisecond)
+			runtime.ReadMemStats(&ms)
+			over := ""
+			if float64(ms.HeapAlloc) > memGB*(1<<30) {
+				over = fmt.Sprintf("heap %.1f GB above the budget of %.0f GB", float64(ms.HeapAlloc)/(1<<30), memGB)
+			} else if time.Since(start).Seconds() > maxSec {
+				over = fmt.Sprintf("run time above the budget of %.0f s", maxSec)
+			}
+			if over != "" {
+				buf := make([]byte, 1<<20)
+				n := runtime.Stack(buf, true)
+				fmt.Fprintf(os.Stderr, "CHECK-BROKEN: analysis stopped by the watchdog: %s\n%s\n", over, buf[:n])
+				fmt.Println("CHECK-BROKEN: analysis stopped by the watchdog: " + over)
+				os.Exit(3)
+			}
+		}
+	}()
 }
